@@ -61,6 +61,11 @@ pub fn read_config_file(
                 &value].join("");
         }
 
+        if arg.contains('\0') {
+            let message = format!("unable to read config file: NUL character in the line of key {}", key.replace('\0', ""));
+            return Err(message);
+        }
+
         argument_list.push(arg);
     }
     let params = CommandLineArgument::get_command_line_arg_list();
